@@ -63,14 +63,28 @@ impl Signal {
         }
     }
 
-    pub fn of_path(path: &str) -> Option<Signal> {
-        // origin-form (`/v1/logs`) or absolute-form (`http://host:port/v1/logs`, which is what emit's
-        // HTTP/1 client puts on the request line)
-        let path = match path.split_once("://") {
+    /// Split a request target into (collector token, signal path): `/c7/v1/logs` -> (Some("c7"), "/v1/logs").
+    /// Accepts origin-form and absolute-form targets; a target without a token prefix has token `None`.
+    pub fn split_target(target: &str) -> (Option<&str>, &str) {
+        let path = match target.split_once("://") {
             Some((_, rest)) => rest.find('/').map(|i| &rest[i..]).unwrap_or("/"),
-            None => path,
+            None => target,
         };
         let path = path.split('?').next().unwrap_or(path);
+        if let Some(rest) = path.strip_prefix("/c") {
+            if let Some(i) = rest.find('/') {
+                if i > 0 && rest[..i].bytes().all(|b| b.is_ascii_digit()) {
+                    return (Some(&path[1..2 + i]), &rest[i..]);
+                }
+            }
+        }
+        (None, path)
+    }
+
+    pub fn of_path(path: &str) -> Option<Signal> {
+        // origin-form (`/v1/logs`) or absolute-form (`http://host:port/v1/logs`, which is what emit's
+        // HTTP/1 client puts on the request line), with or without a collector token prefix
+        let (_, path) = Signal::split_target(path);
         Signal::ALL.into_iter().find(|s| path == s.http_path() || path == s.grpc_path())
     }
 }
@@ -219,6 +233,9 @@ pub(crate) struct Inner {
     pub cv: Condvar,
     next_conn: AtomicU64,
     pub shutdown: AtomicBool,
+    /// this collector's URL token (`c<N>`)
+    pub token: String,
+    pub foreign: AtomicU64,
 }
 
 pub(crate) struct Head {
@@ -238,6 +255,17 @@ impl Inner {
 
     pub fn is_shutdown(&self) -> bool {
         self.shutdown.load(Ordering::SeqCst)
+    }
+
+    /// A request target that carries ANOTHER collector's token: a stale emitter of an earlier case.
+    pub fn is_foreign(&self, target: &str) -> bool {
+        match Signal::split_target(target).0 {
+            Some(t) if t != self.token => {
+                self.foreign.fetch_add(1, Ordering::SeqCst);
+                true
+            }
+            _ => false,
+        }
     }
 
     /// Log the arrival of a request and take its scripted decision.
@@ -383,7 +411,6 @@ impl RefusedPort {
 
 impl Drop for RefusedPort {
     fn drop(&mut self) {
-        release_port(self.port);
         unsafe {
             libc::close(self.fd);
         }
@@ -397,72 +424,26 @@ pub struct Collector {
     refused: Mutex<Option<RefusedPort>>,
 }
 
-// ---------------------------------------------------------------------------------------------
-// Port quarantine. An emitter can outlive the collector of its case (its detached worker keeps retrying a
-// failed batch for the whole retry budget). If the OS handed that collector's port to the collector of a
-// LATER case, the stale emitter would deliver its events there — cross-talk between cases. Ports a
-// collector has used are therefore not accepted again for a while.
-
-struct Quarantine {
-    period: Duration,
-    released: std::collections::HashMap<u16, Instant>,
-}
-
-static QUARANTINE: Mutex<Option<Quarantine>> = Mutex::new(None);
-
-fn with_quarantine<R>(f: impl FnOnce(&mut Quarantine) -> R) -> R {
-    let mut q = QUARANTINE.lock().unwrap();
-    f(q.get_or_insert_with(|| Quarantine { period: Duration::from_secs(10), released: Default::default() }))
-}
-
-/// How long a port released by a collector of this process stays unusable for new collectors
-/// (default 10 s). Set it above the longest time an emitter can keep retrying after its case ended.
-pub fn set_port_quarantine(period: Duration) {
-    with_quarantine(|q| q.period = period);
-}
-
-fn release_port(port: u16) {
-    with_quarantine(|q| {
-        let now = Instant::now();
-        let period = q.period;
-        q.released.retain(|_, t| now.duration_since(*t) < period);
-        q.released.insert(port, now);
-    });
-}
-
-fn quarantined(port: u16) -> bool {
-    with_quarantine(|q| match q.released.get(&port) {
-        Some(t) => t.elapsed() < q.period,
-        None => false,
-    })
-}
-
 pub(crate) fn bind_loopback() -> Result<TcpListener, String> {
     // `bind(127.0.0.1:0)` fails with EADDRINUSE when the ephemeral range is exhausted (tens of
     // thousands of short-lived connections in TIME_WAIT): wait for ports to come back before giving up
     let mut last = String::new();
-    // listeners that landed on a quarantined port are kept bound until a usable one is found, so the
-    // OS cannot offer the same port again
-    let mut rejected = Vec::new();
     for _ in 0..600 {
         match TcpListener::bind("127.0.0.1:0") {
-            Ok(l) => {
-                let port = l.local_addr().map(|a| a.port()).unwrap_or(0);
-                if quarantined(port) && rejected.len() < 4096 {
-                    rejected.push(l);
-                    continue;
-                }
-                return Ok(l);
-            }
-            Err(e) => {
-                last = e.to_string();
-                rejected.clear();
-            }
+            Ok(l) => return Ok(l),
+            Err(e) => last = e.to_string(),
         }
         std::thread::sleep(Duration::from_millis(100));
     }
     Err(format!("collector: cannot bind 127.0.0.1:0 for 60 s: {last}"))
 }
+
+/// Every collector of the process has its own URL token (`/c<N>` path prefix of every URL it hands out).
+/// An emitter can outlive the collector of its case (its detached worker keeps retrying a failed batch for
+/// the whole retry budget) and the OS may hand that collector's port to the collector of a LATER case: a
+/// request that arrives with another collector's token is answered 404 and counted in
+/// `foreign_requests()`; it touches neither the scripts nor the log.
+static NEXT_TOKEN: AtomicU64 = AtomicU64::new(1);
 
 /// Close without TIME_WAIT: SO_LINGER(0) turns the close into a reset. Only used at teardown, when
 /// nothing is in flight any more.
@@ -506,6 +487,8 @@ impl Collector {
             cv: Condvar::new(),
             next_conn: AtomicU64::new(0),
             shutdown: AtomicBool::new(false),
+            token: format!("c{}", NEXT_TOKEN.fetch_add(1, Ordering::SeqCst)),
+            foreign: AtomicU64::new(0),
         });
         let http_addr = listener.local_addr().unwrap();
         let i2 = inner.clone();
@@ -517,14 +500,20 @@ impl Collector {
         Ok(Collector { inner, http_addr, grpc: Mutex::new(None), refused: Mutex::new(None) })
     }
 
-    /// `http://127.0.0.1:<port>`
+    /// `http://127.0.0.1:<port>/c<N>` (append `/v1/logs` etc.; the token-less `http://127.0.0.1:<port>/v1/logs`
+    /// is served too, without the protection against stale emitters)
     pub fn http_base(&self) -> String {
-        format!("http://{}", self.http_addr)
+        format!("http://{}/{}", self.http_addr, self.inner.token)
     }
 
-    /// `http://127.0.0.1:<port>/v1/<signal>`
+    /// `http://127.0.0.1:<port>/c<N>/v1/<signal>`
     pub fn http_url(&self, signal: Signal) -> String {
-        format!("http://{}{}", self.http_addr, signal.http_path())
+        format!("http://{}/{}{}", self.http_addr, self.inner.token, signal.http_path())
+    }
+
+    /// Requests that arrived with another collector's token (answered 404, not logged, scripts untouched).
+    pub fn foreign_requests(&self) -> u64 {
+        self.inner.foreign.load(Ordering::SeqCst)
     }
 
     /// Start the gRPC server if it is not running yet. An error is a harness problem (no port).
@@ -540,36 +529,19 @@ impl Collector {
     /// Starts the server on first use (panics if that fails; call `ensure_grpc` first to handle it).
     pub fn grpc_url(&self) -> String {
         self.ensure_grpc().unwrap_or_else(|e| panic!("{e}"));
-        format!("http://{}", self.grpc.lock().unwrap().as_ref().unwrap().addr)
+        format!("http://{}/{}", self.grpc.lock().unwrap().as_ref().unwrap().addr, self.inner.token)
     }
 
     /// `http://127.0.0.1:<port>` of a port that refuses connections for the life of the collector.
     pub fn refused_base(&self) -> String {
         let mut r = self.refused.lock().unwrap();
         if r.is_none() {
-            // (ports still in quarantine are held until a usable one turns up)
-            let mut rejected = Vec::new();
-            while rejected.len() < 64 {
-                match RefusedPort::new() {
-                    Some(p) if quarantined(p.port) => rejected.push(p),
-                    other => {
-                        *r = other;
-                        break;
-                    }
-                }
-            }
-            // a rejected port was never handed out: do not restart its quarantine
-            for p in rejected {
-                unsafe {
-                    libc::close(p.fd);
-                }
-                std::mem::forget(p);
-            }
+            *r = RefusedPort::new();
         }
         match r.as_ref() {
-            Some(p) => format!("http://127.0.0.1:{}", p.port),
+            Some(p) => format!("http://127.0.0.1:{}/{}", p.port, self.inner.token),
             // fall back to a port nobody listens on (port 1 on loopback)
-            None => "http://127.0.0.1:1".to_string(),
+            None => format!("http://127.0.0.1:1/{}", self.inner.token),
         }
     }
 
@@ -641,7 +613,6 @@ impl Collector {
         if self.inner.shutdown.swap(true, Ordering::SeqCst) {
             return;
         }
-        release_port(self.http_addr.port());
         self.inner.cv.notify_all();
         // wake the accept loop (closed by reset so that our own ephemeral port does not linger in TIME_WAIT)
         if let Ok(wake) = TcpStream::connect_timeout(&self.http_addr, Duration::from_millis(500)) {
@@ -656,7 +627,6 @@ impl Collector {
             abort_stream(s);
         }
         if let Some(g) = self.grpc.lock().unwrap().take() {
-            release_port(g.addr.port());
             g.stop();
         }
         for t in threads {
